@@ -479,14 +479,21 @@ def _derives_from_self(fn, defs, op, seen):
         if si == "term":
             if d.get("k") != "call" or not d["args"]:
                 return False
+            # the shape of the *element* (reached through the car) says nothing about the chain that hangs off the cdr
+            if name_has(F.callee_names(d), CAR_KILLS):
+                return False
             if not _derives_from_self(fn, defs, d["args"][0], seen):
                 return False
             continue
         k = d["k"]
         if k in ("use", "cast"):
+            if d["op"].get("c") in ("copy", "move") and _projects_car(d["op"]["pl"]["p"], fn):
+                return False
             if not _derives_from_self(fn, defs, d["op"], seen):
                 return False
         elif k in ("ref", "rawptr", "discr"):
+            if _projects_car(d["pl"]["p"], fn):
+                return False
             if not _derives_from_self(fn, defs, {"c": "copy", "pl": {"l": d["pl"]["l"], "p": []}}, seen):
                 return False
         else:
